@@ -49,6 +49,11 @@ def run(R, env):
         if cls == "admin":
             found = []
             ok, off = arm_guarded(prog, dctx, arm, G, env.depth, found)
+            if not found and ok:
+                # decided by evaluating the handler in the not-admin world (the test lives in a helper that returns a
+                # bool / in an update closure): not vacuous as long as the handler can succeed at all
+                from engine.analysis import success_exits as _se8
+                found = [{"loc": None, "how": "world"}] if _se8(handler_ctx(prog, dctx, arm)) else []
             n_admin += 1 if found else 0
             R.ob("C08.R1", v, ok, "success exit reachable without passing assert_admin: %s" % (off,), loc=(off[0]["loc"] if off else (found[0]["loc"] if found else None)), fn=hk, found=found)
         elif cls == "admin-when-forced":
